@@ -32,6 +32,49 @@ def evaluate(case):
             if cart and no < 3 and "Qhull" in nm:
                 continue
             bad.append(f"{g}: internal error {nm}: {str(e)[:80]}")
+    # the same five requests on ONE object, in two other orders (position-level getters of the same object asked in between): every
+    # result must equal what a fresh object gives for that getter -- state left by one getter must not leak into another
+    def digest(r):
+        if hasattr(r, "toarray"):
+            r = r.toarray()
+        a = np.asarray(r, dtype=float)
+        return a.shape, a.tobytes()
+
+    def ask(fg, g):
+        try:
+            with quiet():
+                return ("ok", digest(getattr(fg, g)()))
+        except Exception as e:
+            return ("exc", type(e).__name__)
+    fresh = {}
+    for g in GETTERS:
+        try:
+            with quiet():
+                fresh[g] = ask(FullGrid(b, o, T_TEXT[nt], position_grid_cartesian=cart), g)
+        except Exception as e:
+            fresh[g] = ("exc", type(e).__name__)
+    k = (nb + 2 * no + 3 * nt) % len(GETTERS)
+    rot = list(GETTERS[k:]) + list(GETTERS[:k])
+    for order in (rot[::-1], rot[2:] + rot[:2]):
+        try:
+            with quiet():
+                fg = FullGrid(b, o, T_TEXT[nt], position_grid_cartesian=cart)
+        except Exception:
+            break
+        for i, g in enumerate(order):
+            got = ask(fg, g)
+            if got != fresh[g]:
+                what = (f"shape {got[1][0]} vs {fresh[g][1][0]}" if got[0] == "ok" and fresh[g][0] == "ok" and got[1][0] != fresh[g][1][0]
+                        else f"{got[0]} {got[1] if got[0] == 'exc' else 'values'} vs fresh {fresh[g][0]} {fresh[g][1] if fresh[g][0] == 'exc' else ''}")
+                bad.append(f"{g} asked after {order[:i]} on the same object differs from a fresh object's result: {what}")
+                break
+            if i == 1:
+                try:
+                    with quiet():
+                        fg.get_position_grid().get_adjacency_of_position_grid()
+                        fg.get_position_grid().get_borders_of_position_grid()
+                except Exception:
+                    pass
     return "; ".join(bad) if bad else None
 
 
@@ -53,7 +96,8 @@ def run(tier, seed):
             cases.append({"nb": nb, "no": no, "nt": 2, "cart": True, "b": f"cube4D_{nb}", "o": f"cube3D_{no}"})
     res = Result("C19", rule="every (n_b, n_o, n_t) of the box x both position modes x the five getters (array, volumes, adjacency, "
                  "borders, distances); outcome must be the correct shape, ValueError, or (Cartesian, n_o < 3) the geometry library's "
-                 "error; distinct by grid spec; non-trivial = n > 1", bound=f"n_b, n_o in 1..5, n_t in {box_t}, 2 modes", exhaustive=True,
+                 "error; then the same five requests on ONE object in two other orders (position-grid getters asked in between), each compared "
+                 "bitwise with the fresh-object result; distinct by grid spec; non-trivial = n > 1", bound=f"n_b, n_o in 1..5, n_t in {box_t}, 2 modes", exhaustive=True,
                  oracle="shape n / n x 7 / n x n with n = n_t*n_o*n_b")
     with mp.Pool(min(16, os.cpu_count() or 1)) as pool:
         outs = pool.map(_w, cases, chunksize=2)
